@@ -72,6 +72,35 @@ def main():
             checkables = analyze_function(FunctionInfo.from_fn(fn), options)
             if not checkables:
                 out["messages"].append("no checkable condition found")
+            excluded = json.loads(os.environ.get("VCHECK_EXCLUDE") or "[]")
+            if excluded:
+                # Inputs whose counterexample did not reproduce on the real code (engine infidelity)
+                # are excluded so that the search can go on to a *different*, reproducing violation.
+                # The runner never turns such a run into a pass: at best it becomes a replayed
+                # violation, otherwise the condition stays inconclusive.
+                import ast
+                import dataclasses
+                import inspect
+                from crosshair.condition_parser import ConditionExpr, ConditionExprType
+                params = list(inspect.signature(fn).parameters)
+                tuples = []
+                for call in excluded:
+                    node = ast.parse(call, mode="eval").body
+                    tuples.append(tuple(ast.literal_eval(a) for a in node.args))
+
+                def not_excluded(bindings, _tuples=tuples, _params=params):
+                    for tup in _tuples:
+                        if all(bindings[p_] == v_ for p_, v_ in zip(_params, tup)):
+                            return False
+                    return True
+                new_checkables = []
+                for c in checkables:
+                    conds = c.conditions
+                    extra = ConditionExpr(ConditionExprType.PRECONDITION, not_excluded,
+                                          conds.post[0].filename, conds.post[0].line, "not excluded")
+                    conds = dataclasses.replace(conds, pre=list(conds.pre) + [extra])
+                    new_checkables.append(dataclasses.replace(c, conditions=conds))
+                checkables = new_checkables
             msgs = list(run_checkables(checkables))
         verdicts = []
         for m in msgs:
